@@ -125,6 +125,19 @@ fn check(c: &SplitCase, obs: &mut Obs) -> Verdict {
     if want.keys().collect::<Vec<_>>() != got.keys().collect::<Vec<_>>() { return Verdict::Fail(format!("aggregate years differ: parts {:?}, combined {:?}\n{csv}", want.keys(), got.keys())); }
     for (y, v) in &want { if !v.close(&got[y], &tol) { return Verdict::Fail(format!("aggregate {y}: combined {} but the parts add up to {}\n{csv}", got[y], v)); } }
     if !gab.0.close(&ga.0.add(&gb.0), &tol) { return Verdict::Fail(format!("aggregate total: combined {} but parts add up to {}\n{csv}", gab.0, ga.0.add(&gb.0))); }
+    // ... and each security moves the aggregate by exactly its own totals: per year, the combined aggregate is the sum of the
+    // yearly figures in the footers of the securities that were not rejected
+    let mut own: BTreeMap<i32, Rat> = BTreeMap::new();
+    let mut own_total = Rat::zero();
+    for (sec, t) in &sab.secs {
+        if !t.errors.is_empty() { continue; }
+        let Some((tot, ys)) = crate::snapshot::footer_gains(t) else { if t.footer.iter().all(|c| c.trim().is_empty()) { continue; } return Verdict::Fail(format!("cannot read the footer of table {sec}\n{csv}")); };
+        own_total = own_total.add(&tot);
+        for (y, v) in ys { let e = own.entry(y).or_insert(Rat::zero()); *e = e.add(&v); }
+    }
+    for (y, v) in &own { match got.get(y) { Some(g) if g.close(v, &tol) => {} other => return Verdict::Fail(format!("aggregate {y}: shows {:?} but the securities' own {y} totals add up to {}\n{csv}", other.map(|r| r.to_string()), v)) } }
+    for y in got.keys() { if !own.contains_key(y) { return Verdict::Fail(format!("aggregate has a row for {y} that no security's table has\n{csv}")); } }
+    if !gab.0.close(&own_total, &tol) { return Verdict::Fail(format!("aggregate total {} but the securities' own totals add up to {}\n{csv}", gab.0, own_total)); }
     let b_failed = sb.secs.values().any(|t| !t.errors.is_empty());
     let a_has_gain = sa.secs.values().any(|t| t.rows.iter().any(|r| r[9] != "-"));
     if b_failed && a_has_gain { obs.nt("B-fails-bookkeeping-and-A-has-gains"); }
@@ -136,7 +149,7 @@ fn check(c: &SplitCase, obs: &mut Obs) -> Verdict {
 }
 
 pub fn def() -> PropDef {
-    let mut d = PropDef::new("C08", "a generated multi-security input is split into two inputs A and B over disjoint symbols (B optionally carrying a planted bookkeeping failure from the C04 list, or a split combination the tool refuses), keeping the original interleaving for A+B (a third of the cases spread the rows over two or three input files, the same spread in all three runs); three runs. Every cell of every table of A (resp. B) must be identical in A+B; aggregate(A+B) per year = aggregate(A) + aggregate(B) within 1e-9; A+B must not fail as a whole when only one half has a problem. Non-trivial = B contains a bookkeeping failure and A has at least one gain-bearing row. Distinct = distinct case content.");
+    let mut d = PropDef::new("C08", "a generated multi-security input is split into two inputs A and B over disjoint symbols (B optionally carrying a planted bookkeeping failure from the C04 list, or a split combination the tool refuses), keeping the original interleaving for A+B (a third of the cases spread the rows over two or three input files, the same spread in all three runs); three runs. Every cell of every table of A (resp. B) must be identical in A+B; aggregate(A+B) per year = aggregate(A) + aggregate(B) = sum of the accepted securities' own yearly footers, within 1e-9; A+B must not fail as a whole when only one half has a problem. Non-trivial = B contains a bookkeeping failure and A has at least one gain-bearing row. Distinct = distinct case content.");
     d.assumptions = vec!["affiliate display spelling is normalised (first spelling seen wins in the tool; not a figure)"];
     d.subs.push(Box::new(Sub::<SplitCase> { name: "split", cases_quick: 12_000, cases_thorough: 500_000, strategy: Box::new(strategy), to_json: SplitCase::to_json, from_json: SplitCase::from_json, check }));
     d
